@@ -24,6 +24,9 @@ impl LcSut {
     }
 }
 impl Sut for LcSut {
+    fn config(&self) -> Value {
+        json!([self.c.width(), self.c.epsilon().to_bits().to_string()])
+    }
     const TAG: &'static str = "lc";
     fn new(cfg: &Value) -> Self {
         let ne = cfg["ne"].as_u64().unwrap() as usize;
@@ -175,6 +178,24 @@ pub fn drive(args: &[String]) {
         }
         out.put(&json!({"sc": sci, "cfg": cfg, "steps": steps}));
     }
+    // configuration sweep: every width 1..=sweep (both constructors), a window and a half of stream, clear, reuse -
+    // the stored epsilon / width pair must survive clear() for every width, not only the sampled ones
+    let sweep = arg_u64(args, "--sweep", 160);
+    let mut sci = n_sc;
+    for w in 1..=sweep {
+        let ne = 3u64;
+        let mut steps: Vec<Value> = vec![];
+        let n1 = w + w / 2 + 1;
+        for i in 1..=n1.min(40) {
+            steps.push(json!({"obj": "a", "op": {"name":"add","e": 1 + (i % ne), "skip": false}}));
+        }
+        steps.push(json!({"obj": "a", "op": {"name":"clear"}}));
+        for i in 1..=(w + 2).min(40) {
+            steps.push(json!({"obj": "a", "op": {"name":"add","e": 1 + ((i * 2) % ne), "skip": false}}));
+        }
+        out.put(&json!({"sc": sci, "cfg": {"ne": ne, "width": w, "d": 12}, "steps": steps}));
+        sci += 1;
+    }
     out.flush();
-    println!("STATS {}", json!({"scenarios": n_sc}));
+    println!("STATS {}", json!({"scenarios": sci}));
 }
